@@ -52,6 +52,7 @@ def parseOp (ws : List String) : Option Op :=
   | ["editb", o, b] => do pure (.editb (← o.toNat?) (← b.toNat?))
   | ["withdraw", o] => do pure (.withdraw (← o.toNat?))
   | ["fund", o, amt] => do pure (.fund (← o.toNat?) (← amt.toNat?))
+  | ["mint", o, amt] => do pure (.mint (← o.toNat?) (← amt.toNat?))
   | ["unbond", o] => do pure (.unbond (← o.toNat?))
   | ["mkbatch"] => some .mkbatch
   | ["mkcall"] => some .mkcall
@@ -80,7 +81,7 @@ def step (st : St) (line : String) : St × String :=
       let (s', r) := FxVerif.Model.C13.step st.s op
       let st' := { st with s := s' }
       match r with
-      | .panic _ => (st', "panic:SlashOracle:MustAccAddressFromBech32")   -- nothing is committed, the chain halts
+      | .panic site => (st', "panic:" ++ (site.splitOn "(").head!)   -- nothing is committed, the chain halts
       | _ => (st', showRes r ++ " " ++ showState st')
 
 def main : IO Unit := runDriver step ({} : St)
